@@ -122,6 +122,7 @@ type Sched struct {
 type TraceStep struct {
 	K string `json:"k"`
 	I int    `json:"i"`
+	E int64  `json:"e"`
 }
 
 type syncInfo struct {
@@ -490,6 +491,113 @@ func (ex *Exec) worldKey(w *World) string {
 	return strings.Join(parts, ";")
 }
 
+// dataKey fingerprints the constant-valued part of a world's heap, clock and timers. Worlds are
+// merged only when these fingerprints agree, so that merging never turns concrete control data
+// (flags, counters, lengths) into ite-terms; symbolic cells do not take part.
+func (ex *Exec) dataKey(w *World) string {
+	h := uint64(1469598103934665603)
+	mix := func(s string) {
+		for i := 0; i < len(s); i++ {
+			h ^= uint64(s[i])
+			h *= 1099511628211
+		}
+	}
+	var val func(v Value, depth int)
+	term := func(t *Term) {
+		if t == nil {
+			mix("n")
+		} else if t.IsConst() {
+			mix("c" + t.Val.String())
+		} else {
+			mix("?")
+		}
+	}
+	val = func(v Value, depth int) {
+		if depth > 6 {
+			return
+		}
+		switch x := v.(type) {
+		case nil:
+			mix("nil")
+		case *Term:
+			term(x)
+		case *StrV:
+			if x.Term == nil {
+				mix("s" + x.S)
+			} else {
+				mix("?")
+			}
+		case *Ptr:
+			if len(x.Alts) == 1 {
+				if x.Alts[0].Obj == nil {
+					mix("p0")
+				} else {
+					mix(fmt.Sprintf("p%d", x.Alts[0].Obj.ID))
+				}
+			} else {
+				mix("?")
+			}
+		case *SliceV:
+			val(x.Base, depth+1)
+			term(x.Len)
+			term(x.Off)
+		case *StructV:
+			for _, f := range x.Fields {
+				val(f, depth+1)
+			}
+		case *ArrayV:
+			for _, e := range x.Elems {
+				val(e, depth+1)
+			}
+		case *IfaceV:
+			if len(x.Alts) == 1 {
+				if x.Alts[0].Typ == nil {
+					mix("i0")
+				} else {
+					mix("i")
+					val(x.Alts[0].Val, depth+1)
+				}
+			} else {
+				mix("?")
+			}
+		case *FuncV:
+			if len(x.Alts) == 1 {
+				mix("f")
+			} else {
+				mix("?")
+			}
+		}
+	}
+	for _, o := range ex.sched.objs {
+		s, ok := w.heap[o]
+		if !ok {
+			continue
+		}
+		mix(fmt.Sprintf("|o%d", o.ID))
+		switch o.Kind {
+		case OCell:
+			val(s.Val, 0)
+		case OVec:
+			for _, e := range s.Elems {
+				val(e, 1)
+			}
+		case OSym:
+			term(s.Len)
+		case OMap:
+			mix(fmt.Sprintf("m%d", len(s.Entries)))
+		case OChan:
+			term(s.ChN)
+			term(s.Closed)
+		}
+	}
+	term(w.clock)
+	for _, t := range w.timers {
+		term(t.active)
+		term(t.due)
+	}
+	return fmt.Sprintf("%x", h)
+}
+
 func (w *World) clone() *World {
 	n := &World{G: w.G, threads: append([]*State(nil), w.threads...), exited: append([]bool(nil), w.exited...), depth: w.depth}
 	if len(w.fired) > 0 {
@@ -810,9 +918,15 @@ func (ex *Exec) Quiesce(maxSteps int) (*Term, []*World) {
 				sc.segments++
 				sc.step = depth + 1
 				if c.tm != nil {
+					// real time strictly advances between a timer's due instant and its dispatch
+					eps := ex.freshInt("eps!"+strings.TrimPrefix(cname, "ch!"), big1, bigInt(1000))
+					if eps.Sort.K == KInt {
+						ex.clock = tb.Add(ex.clock, eps)
+					}
 					ex.fireTimer(c.tm, tb.True)
 					if ex.Fixed != nil {
-						sc.Trace = append(sc.Trace, TraceStep{K: "M", I: c.tm.id})
+						e, _ := ex.termInt64(eps)
+						sc.Trace = append(sc.Trace, TraceStep{K: "M", I: c.tm.id, E: e})
 					}
 				} else {
 					c.th.Steps++
